@@ -66,6 +66,11 @@ TEMPLATES = {
     "sweep": ([["?a", "agent"], ["?d", "dock"]], [A("at", "?a", "?d")], [A("clear", "?d")]),
     "seal": ([["?a", "agent"], ["?d", "dock"]], [A("at", "?a", "?d"), A("clear", "?d")], [NOT(A("clear", "?d"))]),
     "stash": ([["?a", "agent"], ["?o", "tool"], ["?d", "dock"]], [A("at", "?a", "?d"), A("on", "?o", "?d")], [A("done", "?o")]),
+    # universally quantified effects: every item at the location is marked / every agent there gets busy
+    "sweepall": ([["?a", "agent"], ["?l", "loc"]], [A("at", "?a", "?l")],
+                 [L(S("forall"), L(S("?i"), S("-"), S("item")), L(S("when"), A("on", "?i", "?l"), A("done", "?i")))]),
+    "ring": ([["?a", "agent"], ["?l", "loc"]], [A("at", "?a", "?l"), NOT(A("busy", "?a"))],
+             [A("alarm"), L(S("forall"), L(S("?b"), S("-"), S("agent")), L(S("when"), A("at", "?b", "?l"), A("busy", "?b")))]),
     # actions without parameters (no agent of their own): legal members of a joint action
     "tick": ([], [], [L(S("increase"), L(S("total")), N(1))]),
     "hush": ([], [A("alarm")], [NOT(A("alarm"))]),
@@ -94,6 +99,7 @@ VARIANTS = {
 def gen_domain(rng):
     names = ["move", "pick", "drop"] + rng.sample(["mark", "clean", "block", "rest", "inspect", "count", "disarm", "arm", "work", "signal"], rng.choice([3, 4, 5]))
     names += rng.sample(["sweep", "seal", "stash"], rng.choice([0, 1, 2]))
+    names += rng.sample(["sweepall", "ring"], rng.choice([0, 0, 1, 2]))
     if rng.random() < 0.5:
         names.append(rng.choice(["tick", "hush"]))
     acts = []
